@@ -20,7 +20,10 @@ TIERS = {
 }
 RULE = ("case = (world, variant): a generated directory tree with settings (recursion, auto-exclusion, prefix and its "
         "source, 0-3 exclude patterns, output placement) run under one listing schedule and, in fault shards, one I/O "
-        "fault plan; non-trivial iff the tree has >= 2 directories or a non-CMake file or a mixed-case extension, and in "
+        "fault plan (one-shot or persistent ENOSPC/EACCES/EIO at open/write/close/mkdir, read errors, a failing listing "
+        "in the auto-exclusion probe, a mkdir race, a kill at an arbitrary seam followed by a re-run); each world is also "
+        "re-run over its own output directory after every page was torn or replaced by a longer old text stamped in the "
+        "future; non-trivial iff the tree has >= 2 directories or a non-CMake file or a mixed-case extension, and in "
         "fault shards iff at least one fault fired; distinct by sha256(tree, settings, schedule, faults)")
 COMPONENTS = E1_COMPONENTS
 ASSUMPTIONS = E1_ASSUMPTIONS + [
@@ -430,7 +433,8 @@ MANIFEST = {
                   "content against a single-file run of the same CLI, and under injected I/O errors: never exit 0 with a missing "
                   "or short page, never a file outside the expected set; a mkdir race must be survived with the full tree; a simulated "
                   "kill (crash) at an arbitrary open/write/close/mkdir followed by a plain re-run must yield exactly the fault-free "
-                  "tree (no torn page survives a restart).",
+                  "tree (no torn page survives a restart); persistent faults (the disk stays full) must not be retried into silence; a "
+                  "re-run over an output directory full of torn, longer or newer-stamped stale pages must restore the exact tree.",
     "level_note": "trusted: reference walk (30 lines) and gitignore matcher, tmpfs, libraries as installed; ambiguous worlds "
                   "(directory emptied by exclusion under auto-exclusion) are not judged by set equality",
 }
